@@ -149,7 +149,11 @@ func (c *CheckCtx) runJobs(jobs []*Job, keepProp func(o *Obligation) bool) {
 			defer wg.Done()
 			defer func() { <-sem }()
 			t0 := time.Now()
-			tr.discharge(c.cfg, 6, keep)
+			workers := 6
+			if len(trs) <= 4 {
+				workers = runtime.NumCPU()
+			}
+			tr.discharge(c.cfg, workers, keep)
 			if os.Getenv("GOVC_TIMING") != "" {
 				fmt.Fprintf(os.Stderr, "timing %6.1fs %s (%d obls, %d decls)\n", time.Since(t0).Seconds(), fnName(tr.root), len(tr.obls), len(tr.decls))
 			}
@@ -269,6 +273,18 @@ func (c *CheckCtx) finish() int {
 		"translation_drops":         translationDrops,
 		"contract_files":            c.eng.contracts.files,
 	}
+	var deadNames []string
+	for _, o := range c.obls {
+		if o.Dead {
+			deadNames = append(deadNames, o.Name)
+		}
+	}
+	cov["dead_path_obligations"] = len(deadNames)
+	if len(deadNames) > 40 {
+		deadNames = deadNames[:40]
+	}
+	cov["dead_paths"] = deadNames
+	cov["dead_path_rule"] = "obligations whose path condition the assumptions refute within 0.7 s (discharged vacuously): expected for code that is unreachable under the stated preconditions; listed so that a modelling error cannot hide behind them"
 	for k, v := range c.extra {
 		cov[k] = v
 	}
